@@ -877,24 +877,49 @@ class Mrc(McrBase):
 
 
 # Instruction selection patterns:
+# mem is a base register with the 12 bit offset of ldr, str, ldrb and strb.
+# mem8 is a base register with the 8 bit offset of the halfword and signed
+# byte forms.
 @arm_isa.pattern(
     "mem",
     "ADDI32(reg, CONSTI32)",
     size=0,
-    condition=lambda t: t[1].value < 256,
+    condition=lambda t: t[1].value in range(-4095, 4096),
+)
+@arm_isa.pattern(
+    "mem8",
+    "ADDI32(reg, CONSTI32)",
+    size=0,
+    condition=lambda t: t[1].value in range(-255, 256),
 )
 def pattern_mem_reg_offset(context, tree, c0):
     offset = tree.children[0].children[1].value
     return c0, offset
 
 
-@arm_isa.pattern("mem", "FPRELU32", size=0, cycles=0, energy=0)
+@arm_isa.pattern(
+    "mem",
+    "FPRELU32",
+    size=0,
+    cycles=0,
+    energy=0,
+    condition=lambda t: t.value.offset in range(-4095, 4096),
+)
+@arm_isa.pattern(
+    "mem8",
+    "FPRELU32",
+    size=0,
+    cycles=0,
+    energy=0,
+    condition=lambda t: t.value.offset in range(-255, 256),
+)
 def pattern_mem_fprel32(context, tree):
     offset = tree.value.offset
     return R11, offset
 
 
 @arm_isa.pattern("mem", "reg", size=0, cycles=0, energy=0)
+@arm_isa.pattern("mem8", "reg", size=0, cycles=0, energy=0)
 def pattern_mem_reg(context, tree, c0):
     return c0, 0
 
@@ -906,8 +931,8 @@ def pattern_str32(self, tree, c0, c1):
     self.emit(Str1(c1, base_reg, offset))
 
 
-@arm_isa.pattern("stm", "STRI16(mem, reg)", size=4)
-@arm_isa.pattern("stm", "STRU16(mem, reg)", size=4)
+@arm_isa.pattern("stm", "STRI16(mem8, reg)", size=4)
+@arm_isa.pattern("stm", "STRU16(mem8, reg)", size=4)
 def pattern_str16(self, tree, c0, c1):
     base_reg, offset = c0
     self.emit(Strh(c1, base_reg, offset))
@@ -1205,7 +1230,7 @@ def pattern_fprel32(context, tree):
     return d
 
 
-@arm_isa.pattern("reg", "LDRI8(mem)", size=4)
+@arm_isa.pattern("reg", "LDRI8(mem8)", size=4)
 def pattern_ldr_i8(context, tree, c0):
     d = context.new_reg(ArmRegister)
     base_reg, offset = c0
@@ -1221,7 +1246,7 @@ def pattern_ldr_u8(context, tree, c0):
     return d
 
 
-@arm_isa.pattern("reg", "LDRI16(mem)", size=4, energy=8)
+@arm_isa.pattern("reg", "LDRI16(mem8)", size=4, energy=8)
 def pattern_ldr_i16(context, tree, c0):
     d = context.new_reg(ArmRegister)
     base_reg, offset = c0
@@ -1229,7 +1254,7 @@ def pattern_ldr_i16(context, tree, c0):
     return d
 
 
-@arm_isa.pattern("reg", "LDRU16(mem)", size=4, energy=8)
+@arm_isa.pattern("reg", "LDRU16(mem8)", size=4, energy=8)
 def pattern_ldr_u16(context, tree, c0):
     d = context.new_reg(ArmRegister)
     base_reg, offset = c0
